@@ -126,14 +126,14 @@ def run(ctx: Ctx) -> None:
     for arg in ("'number_of_threads'", "name='number_of_threads'"):
         bnt = bnt or body_is(nt.body, f"""
 _N = self.biogeme_parameters.get_value({arg})
-return __ALL if _N == 0 else __SAME
+return __ALL if _N == 0 else _N
 """)
     if bnt is None or 'property' not in nt.decorators():
         ctx.shape('C04.R2', 'BIOGEME.number_of_threads', False, nt, '', 'property returning the parameter number_of_threads, with a special value for 0')
     else:
-        allv, same = unparse(bnt['__ALL'][1]), unparse(bnt['__SAME'][1])
-        ok = allv in ('mp.cpu_count()', 'multiprocessing.cpu_count()', 'os.cpu_count()') and same == bnt['_N']
-        ctx.add('C04.R2', 'BIOGEME.number_of_threads', ok, nt, 'number_of_threads is the parameter value, 0 meaning all CPUs' if ok else f'number_of_threads: 0 -> {allv}, otherwise {same}', f'{allv}/{same}')
+        allv = unparse(bnt['__ALL'][1])
+        ok = allv in ('mp.cpu_count()', 'multiprocessing.cpu_count()', 'os.cpu_count()')
+        ctx.add('C04.R2', 'BIOGEME.number_of_threads', ok, nt, 'number_of_threads is the parameter value, 0 meaning all CPUs' if ok else f'number_of_threads: 0 -> {allv}, which is not the number of CPUs', allv)
 
     f = B.methods['calculate_likelihood']
     rets = [n for n in walk_no_nested(f.node) if isinstance(n, ast.Return) and n.value is not None]
@@ -156,7 +156,8 @@ return __ALL if _N == 0 else __SAME
             ok = ok and len(guard) == 1 and unparse(guard[0].test) == 'scaled'
         ctx.add('C04.R3', f'BIOGEME.calculate_likelihood:{"scaled" if t != fv else "raw"}', ok, (f.file, r.lineno), what + ('' if ok else '; the scaled value is the engine value divided by the sample size'), t)
     g = B.methods['calculate_likelihood_and_derivatives']
-    ss = [n for n in walk_no_nested(g.node) if isinstance(n, ast.Assign) and 'get_sample_size' in unparse(n.value) and isinstance(n.targets[0], ast.Name)]
+    divisors = {unparse(n.right) for n in walk_no_nested(g.node) if isinstance(n, ast.BinOp) and isinstance(n.op, ast.Div) and isinstance(n.right, ast.Name)}
+    ss = [n for n in walk_no_nested(g.node) if isinstance(n, ast.Assign) and 'get_sample_size' in unparse(n.value) and isinstance(n.targets[0], ast.Name) and n.targets[0].id in divisors]
     ok = len(ss) == 1 and unparse(ss[0].value) in ('float(self.database.get_sample_size())', 'self.database.get_sample_size()')
     ctx.add('C04.R3', 'BIOGEME.calculate_likelihood_and_derivatives:divisor', ok, g, f'the divisor is {unparse(ss[0].value) if ss else "?"}' + ('' if ok else '; expected the sample size of the database'), unparse(ss[0].value) if ss else '')
     if ok:
